@@ -61,6 +61,12 @@ Roots ==
          B("Sub", tt, A), B("Sub", tt, N("Tup", << KI(0) >>)), Look(oo, "p"), Look(oo, "q") }
   \cup { N("Tup", << A, L >>), N("Tup", << A >>) }
   \cup NumLeaves \cup BoolLeaves
+  \* comparisons and 'not' as operands: Python chains a < b < c and reads 'not' below comparisons
+  \* and arithmetic, so the generated text needs parentheses the pymbolic syntax does not
+  \cup { Cmp(Cmp(x, "<", y), "<", z), Cmp(x, "<", Cmp(y, "<", z)), Cmp(Cmp(x, "==", y), "!=", bb),
+         Cmp(U("LogNot", bb), "<", x), N("Sum", << U("LogNot", bb), x >>),
+         N("Product", << KI(2), U("LogNot", bb) >>), U("BitNot", U("LogNot", bb)),
+         IfE(Cmp(Cmp(x, "<", y), "==", bb), x, y) }
   \* mixed-case names (ASCII order puts upper case first) and long n-ary nodes
   \cup { N("Sum", << V("N"), N("Product", << KI(10), V("a0") >>), A >>) }
   \cup { N(k, << x, y, z, KI(2), V("Y"), x, y, KI(-1), z >>) : k \in {"Sum", "Product", "BitXor"} }
@@ -84,7 +90,7 @@ Complete == NHoles(tree) = 0 /\ listed # Unset
 \* mapper differs from it only in using repr for constants), read with PYTHON's grammar
 \* (C07_PyGrammar), must mean what the tree means in every environment of the box
 SourceMeansTree(e) ==
-    LET toks == Stringify(e) IN
+    LET toks == StringifyPy(e) IN
     IF ~Printable(toks) THEN "SKIP"
     ELSE LET r == PyParse(toks) IN
          IF ~r.ok THEN "generated-source-is-not-python"
